@@ -187,7 +187,7 @@ class SafeText:
                 break
 
 
-LATER_RULES = ' Later rules: (R3.5) position-based splices in a loop run back to front; (R3.6) a line inserted at an index found by prefix tests on lines needs a validated result; (R3.7) whole-module rollback points also consult a compile oracle; (R3.8) regex-only whitespace editors are decided on the regex AST (whitespace only, ends at a line boundary, puts a line break back); (R3.9) a deletion range widened by a regex match cannot cross a line break.'
+LATER_RULES = ' Later rules: (R3.5) position-based splices in a loop run back to front; (R3.6) a line inserted at an index found by prefix tests on lines needs a validated result; (R3.7) whole-module rollback points also consult a compile oracle; (R3.8) regex-only whitespace editors are decided on the regex AST (whitespace only, ends at a line boundary, puts a line break back); (R3.9) a deletion range widened by a regex match cannot cross a line break. (R3.13) the line above a statement that can carry decorators is not `lineno - 1` (the lines of the decorators count), unless the text built with it is validated; (R3.12) a file is written back in the encoding it was read with (same literal, or the encoding the cookie-aware reader detected).'
 
 
 def check(prog: Program, tier: str) -> Result:
@@ -304,7 +304,15 @@ def check(prog: Program, tier: str) -> Result:
         ("fixes", "sort_imports"), ("fixes", "_sort_import_statements"), ("fixes", "_fix_imported_as_self_or_unsorted"),
         ("fixes", "fix_duplicate_imports"), ("fixes", "_fix_duplicate_regular_imports"), ("fixes", "_fix_duplicate_from_imports"),
         ("main", "_multi_run_fixes"), ("main", "format_code")}]
-    todo = anchors + extra + pipeline_fns
+    # helpers that a pipeline stage hands its text to (one level): `add_missing_imports` returns what `_fix_undefined_variables` does
+    helpers: List[Func] = []
+    for host in pipeline_fns:
+        for c in prog.calls_in(host):
+            rr = prog.resolve_call(c.func, host.mod, host)
+            if rr and rr[0] == "fn" and not rr[1].is_fix and rr[1].posparams and rr[1].posparams[0] in ("source", "src", "content") \
+                    and rr[1].key not in seen and rr[1].key not in {f.key for f in helpers}:
+                helpers.append(rr[1])
+    todo = anchors + extra + helpers + pipeline_fns
     st.solve(todo)
     # a nested @processing.fix function (pattern_matching.subn.fix_func) is called through the wrapper
     for fn in pipeline_fns:
@@ -348,12 +356,16 @@ def check(prog: Program, tier: str) -> Result:
     res.floors["R3.9"] = 1
     res.floors["R3.10"] = 1
     res.floors["R3.11"] = 8
+    res.floors["R3.12"] = 2
+    res.floors["R3.13"] = 1
     _r3_5(prog, res)
     _r3_6(prog, res, st)
     _r3_7(prog, res)
     _r3_9(prog, res)
     _r3_10(prog, res)
     _r3_11(prog, res)
+    _r3_12(prog, res)
+    _r3_13(prog, res, st)
     res.analysed.update({"anchor_functions": [f.fq for f in anchors], "pipeline_stages": len(pipeline_fns),
                          "safe_text_summaries": {f"{k[0]}.{k[1]}": v for k, v in sorted(st.summary.items())}})
     return res
@@ -1143,10 +1155,185 @@ def _sub_summary(prog: Program, st: SafeText) -> str:
     return SAFE if returns_fix_of(sub, "source") else UNKNOWN
 
 
+# ------------------------------------------------------------------------------------------------ R3.12
+def _enc_norm(text: str) -> str:
+    return text.lower().replace("_", "-")
+
+
+def _r3_12(prog: Program, res: Result) -> None:
+    """Whether a file is valid Python is a question about its BYTES (byte order mark, coding cookie).  A file entry point
+    that reads a file and writes the formatted text back must write in the encoding it decoded with: the same literal on
+    both sides, or - when the reader honours the cookie (tokenize.open) - the encoding that reader detected
+    (<stream>.encoding).  Otherwise a valid file whose cookie names another codec is replaced by bytes that codec cannot
+    decode (or decodes to other characters), whatever the write guard found out about the text."""
+    from ..defuse import bindings
+    for m, q in WRITERS:
+        fn = prog.func(m, q)
+        reads = []      # (node, descriptor)
+        streams = {}    # handle name -> descriptor of its reader
+        for n in walk_own(fn.node):
+            if isinstance(n, (ast.With, ast.AsyncWith)):
+                for item in n.items:
+                    c = item.context_expr
+                    if not isinstance(c, ast.Call):
+                        continue
+                    d = prog.dotted(c.func)
+                    handle = item.optional_vars.id if isinstance(item.optional_vars, ast.Name) else None
+                    if d == "tokenize.open":
+                        reads.append((c, ("cookie", handle)))
+                        streams[handle] = ("cookie", handle)
+                    elif d in ("open", "io.open") or (isinstance(c.func, ast.Attribute) and c.func.attr == "open"):
+                        mode = call_arg(c, 1, "mode") if d in ("open", "io.open") else call_arg(c, 0, "mode")
+                        mode_s = mode.value if isinstance(mode, ast.Constant) and isinstance(mode.value, str) else "r"
+                        if any(ch in mode_s for ch in "wax+") or "b" in mode_s:
+                            continue
+                        enc = call_arg(c, 99, "encoding")
+                        reads.append((c, ("lit", _enc_norm(enc.value)) if isinstance(enc, ast.Constant) and isinstance(enc.value, str) else
+                                      ("default",) if enc is None else ("expr", norm(enc))))
+            elif isinstance(n, ast.Call) and isinstance(n.func, ast.Attribute) and n.func.attr == "read_text":
+                enc = call_arg(n, 0, "encoding")
+                reads.append((n, ("lit", _enc_norm(enc.value)) if isinstance(enc, ast.Constant) and isinstance(enc.value, str) else
+                              ("default",) if enc is None else ("expr", norm(enc))))
+        if not reads:
+            continue
+
+        def write_descriptor(enc):
+            if enc is None:
+                return ("default",)
+            if isinstance(enc, ast.Constant) and isinstance(enc.value, str):
+                return ("lit", _enc_norm(enc.value))
+            if isinstance(enc, ast.Attribute) and enc.attr == "encoding" and isinstance(enc.value, ast.Name) and enc.value.id in streams:
+                return ("stream", enc.value.id)
+            if isinstance(enc, ast.Name):
+                defs = bindings(fn).get(enc.id, [])
+                ds = {write_descriptor(v) for _s, v in defs if v is not None}
+                if len(ds) == 1 and len(defs) == len([1 for _s, v in defs if v is not None]):
+                    return ds.pop()
+            return ("expr", norm(enc))
+        for site, _written in _write_sites(prog, fn):
+            if isinstance(site, (ast.With, ast.AsyncWith)):
+                c = [i.context_expr for i in site.items if isinstance(i.context_expr, ast.Call)][0]
+                enc = call_arg(c, 99, "encoding")
+                mode = call_arg(c, 1, "mode") if prog.dotted(c.func) in ("open", "io.open") else call_arg(c, 0, "mode")
+                if isinstance(mode, ast.Constant) and "b" in str(mode.value):
+                    res.undecided("R3.12", fn.loc(site), fn.fq, short(c, 80), "binary write: the encoding is chosen where the bytes are made")
+                    continue
+            elif isinstance(site, ast.Call) and site.func.attr == "write_text":
+                enc = call_arg(site, 1, "encoding")
+                c = site
+            else:
+                res.undecided("R3.12", fn.loc(site), fn.fq, short(site, 80), "binary write: the encoding is chosen where the bytes are made")
+                continue
+            wd = write_descriptor(enc)
+            ok = False
+            why = ""
+            for _r, rd in reads:
+                if rd[0] == "lit" and wd == rd:
+                    ok, why = True, f"read and written as {rd[1]}"
+                elif rd[0] == "cookie" and wd == ("stream", rd[1]):
+                    ok, why = True, "written in the encoding the cookie-aware reader detected"
+                elif rd[0] == "default" and wd == ("default",):
+                    ok, why = True, "read and written in the locale's encoding"
+            if not ok:
+                why = (f"the file is read as {' / '.join(sorted({'the encoding its cookie names' if r[1][0] == 'cookie' else r[1][-1] if len(r[1]) > 1 else 'the locale default' for r in reads}))}"
+                       f" and written as {wd[-1] if len(wd) > 1 else 'the locale default'}: a valid file whose bytes are not in that encoding is replaced by an invalid (or different) one")
+            res.decide(ok, "R3.12", fn.loc(site), fn.fq, f"{short(c, 80)} # encoding of the write", why)
+
+
+# ------------------------------------------------------------------------------------------------ R3.13
+_DECORATABLE = {"FunctionDef", "AsyncFunctionDef", "ClassDef"}
+
+
+def _stmt_kinds_of(prog: Program, fn: Func, name: str) -> Optional[set]:
+    """Node kinds a local can hold, read off where it is bound: None = not known; {"*"} = any statement."""
+    from ..defuse import bindings
+    kinds: set = set()
+    defs = bindings(fn).get(name, [])
+    if not defs or name in fn.all_params:
+        return None
+    for st_, v in defs:
+        it = None
+        if isinstance(st_, (ast.For, ast.AsyncFor)):
+            it = st_.iter
+        elif v is not None:
+            it = v
+        else:
+            return None
+        while isinstance(it, ast.Call) and isinstance(it.func, ast.Name) and it.func.id in ("enumerate", "list", "tuple", "sorted", "reversed", "iter") and it.args:
+            it = it.args[0]
+        if isinstance(it, ast.Subscript):       # tree.body[0], tree.body[1:]
+            it = it.value
+        if isinstance(it, ast.Attribute) and it.attr in ("body", "orelse", "finalbody"):
+            kinds.add("*")
+            continue
+        if isinstance(it, ast.Call):
+            classes = {x.attr for a in list(it.args[1:]) + [k.value for k in it.keywords] for x in ast.walk(a)
+                       if isinstance(x, ast.Attribute) and isinstance(x.value, ast.Name) and fn.mod.aliases.get(x.value.id) == ("ext", "ast") and hasattr(ast, x.attr)}
+            d = norm(it.func)
+            if d.endswith(("walk", "filter_nodes")) and classes:
+                kinds |= classes
+                continue
+            if d.endswith(("iter_funcdefs", "iter_classdefs")):
+                kinds |= _DECORATABLE
+                continue
+        return None
+    return kinds
+
+
+def _r3_13(prog: Program, res: Result, st) -> None:
+    """The line above statement X is `X.lineno - 1` only when X cannot carry decorators: for a decorated def / class, lineno
+    is the line of `def` / `class` and the decorators stand above it, so a line put at that index lands BETWEEN the decorator
+    and the definition and the text no longer parses.  Instance: `<X>.lineno - 1` where X is drawn from a statement list or
+    from a search for definition kinds.  Discharged when the function consults `decorator_list`, or only returns its input or a
+    validated text (then the misplaced line is rolled back, never handed on)."""
+    n = 0
+    for fn in prog.funcs.values():
+        for e in walk_own(fn.node):
+            if not (isinstance(e, ast.BinOp) and isinstance(e.op, ast.Sub) and isinstance(e.right, ast.Constant) and e.right.value == 1
+                    and isinstance(e.left, ast.Attribute) and e.left.attr == "lineno" and isinstance(e.left.value, ast.Name)):
+                continue
+            x = e.left.value.id
+            kinds = _stmt_kinds_of(prog, fn, x)
+            n += 1
+            if kinds is None:
+                res.undecided("R3.13", fn.loc(e), fn.fq, f"{norm(e)} # the line above a statement", "what kind of node this is cannot be read off its binding")
+                continue
+            if "*" not in kinds and not (kinds & _DECORATABLE):
+                res.ok("R3.13", fn.loc(e), fn.fq, f"{norm(e)} # the line above a statement", f"{'/'.join(sorted(kinds))} carry no decorators", trivial=True)
+                continue
+            aware = any(isinstance(a, ast.Attribute) and a.attr == "decorator_list" for a in walk_own(fn.node))
+            summary = None
+            if not aware:
+                try:
+                    st.solve([fn])
+                except Exception:
+                    pass
+                summary = st.summary.get(fn.key)
+            ok = aware or summary in ("SAFE", "VALID", "PARAM")
+            res.decide(ok, "R3.13", fn.loc(e), fn.fq, f"{norm(e)} # the line above a statement",
+                       "the function looks at the decorators" if aware else "the function only returns its input or a validated text" if ok else
+                       f"the statement can be a decorated def / class ({'any statement of a body' if '*' in kinds else '/'.join(sorted(kinds & _DECORATABLE))}): its lineno is the line "
+                       f"of the def, the decorators stand above it, and what is put at this index lands between decorator and definition; the text is returned unvalidated (summary {summary})")
+    res.analysed["lines_above_a_statement"] = n
+
+
 # ---------------------------------------------------------------------------------------------- self-test
 from ..selftest import Variant  # noqa: E402
 
 VARIANTS = [
+    Variant("import-put-above-the-def-line-of-a-decorated-definition", "FIRE", "fixes",
+            "        first_lineno = min([node.lineno, *(x.lineno for x in getattr(node, \"decorator_list\", ()))])\n        # If it shares its first line with e.g. the docstring, it is better to go after it\n        lineno = first_lineno - 1 if first_lineno > last_skipped_lineno else node.end_lineno\n",
+            "        lineno = node.lineno - 1 if node.lineno > last_skipped_lineno else node.end_lineno\n", "R3.13",
+            extra=[("fixes", "    new_source = \"\\n\".join(lines) + \"\\n\"\n    if not core.is_valid_python(new_source):\n        return source\n\n    return new_source\n", "    return \"\\n\".join(lines) + \"\\n\"\n")]),
+    Variant("import-put-above-the-def-line-but-result-validated", "SILENT", "fixes",
+            "        first_lineno = min([node.lineno, *(x.lineno for x in getattr(node, \"decorator_list\", ()))])\n        # If it shares its first line with e.g. the docstring, it is better to go after it\n        lineno = first_lineno - 1 if first_lineno > last_skipped_lineno else node.end_lineno\n",
+            "        lineno = node.lineno - 1 if node.lineno > last_skipped_lineno else node.end_lineno\n"),
+    Variant("file-read-by-cookie-written-as-utf8", "FIRE", "main", '    with open(filename, "r", encoding="utf-8") as stream:\n        initial_content = stream.read()\n\n    keep_imports',
+            '    import tokenize\n    with tokenize.open(filename) as stream:\n        initial_content = stream.read()\n\n    keep_imports', "R3.12"),
+    Variant("replace-command-writes-utf8", "FIRE", "pattern_matching", "filename.write_text(new_source, encoding=encoding)", 'filename.write_text(new_source, encoding="utf-8")', "R3.12"),
+    Variant("replace-command-writes-locale-default", "FIRE", "pattern_matching", "filename.write_text(new_source, encoding=encoding)", 'filename.write_text(new_source)', "R3.12"),
+    Variant("replace-command-asks-the-stream-at-the-write", "SILENT", "pattern_matching", "filename.write_text(new_source, encoding=encoding)", 'filename.write_text(new_source, encoding=stream.encoding)'),
+    Variant("file-read-and-written-as-UTF_8", "SILENT", "main", 'with open(filename, "w", encoding="utf-8") as stream:', 'with open(filename, "w", encoding="UTF_8") as stream:'),
     Variant("comparison-oracle-accepts-unparsable-result", "FIRE", "core", "    return new_root is not None and ast.dump(old_root) == ast.dump(new_root)\n", "    return new_root is None or ast.dump(old_root) == ast.dump(new_root)\n", "R3.4"),
     Variant("comparison-parser-hands-back-a-tree-after-failure", "FIRE", "core", "        except (SyntaxError, ValueError, RecursionError, MemoryError):\n            continue\n\n        # Whitespace inside docstrings", "        except (SyntaxError, ValueError, RecursionError, MemoryError):\n            root = ast.Module(body=[], type_ignores=[])\n\n        # Whitespace inside docstrings", "R3.4"),
     Variant("duplicates-removed-with-the-tree-of-the-old-text", "FIRE", "fixes",
